@@ -83,6 +83,8 @@ Single(s) == [docs |-> <<[uri |-> EmptyURI, s |-> s]>>]
 DrFor(s) == IF \E k \in {"itemsArray", "additionalItems", "depSchemas", "depStrings", "definitions"} : k \in DOMAIN s THEN "d7" ELSE "2020"
 VerdDr(s, dr) == [i \in DOMAIN RTInsts |-> IF Ev(Single(s), dr, Addr(1, <<>>), RTInsts[i], <<>>).ok THEN "T" ELSE "F"]
 Verd(s) == VerdDr(s, DrFor(s))
+SingleU(uri, s) == [docs |-> <<[uri |-> uri, s |-> s]>>]
+VerdU(uri, s) == [i \in DOMAIN RTInsts |-> IF Ev(SingleU(uri, s), "2020", Addr(1, <<>>), RTInsts[i], <<>>).ok THEN "T" ELSE "F"]
 KeysOf(s) == IF "bool" \in DOMAIN s THEN {} ELSE Emitted(s)
 
 \* ------------------------------------------------------------ DK: decorations (C18)
@@ -118,8 +120,20 @@ DecorateAt(s, seg, deco) ==
   ELSE IF "n" \in DOMAIN seg[1] THEN [s EXCEPT ![seg[1].k][seg[1].n] = IF "bool" \in DOMAIN @ THEN @ ELSE @ @@ deco]
   ELSE [s EXCEPT ![seg[1].k] = IF "bool" \in DOMAIN @ THEN @ ELSE @ @@ deco]
 DKWhere == {<<>>} \cup {<<g>> : g \in UNION {ChildSegs(x) : x \in DKBases}}
-DKCases == {[base |-> t[1], s |-> DecorateAt(t[1], t[2], t[3]), raw |-> ("rawkeys" \in DOMAIN t[3])] :
+DKCases == {[base |-> t[1], s |-> DecorateAt(t[1], t[2], t[3]), raw |-> ("rawkeys" \in DOMAIN t[3]), uri |-> EmptyURI] :
               t \in {x \in DKBases \X DKWhere \X (DKDecos \cup DKRaw) : x[2] = <<>> \/ x[2][1] \in ChildSegs(x[1])}}
+\* a reference chain whose middle link lies in a resource that declares a $dynamicAnchor: the link is part
+\* of the dynamic scope whether or not it carries anything besides its $ref
+\*   root --$ref--> list#/$defs/entry --$ref--> generic (items: $dynamicRef #T, own T = {})
+DKChainURI == URI("http", "h1", TRUE, <<"root.json">>)
+DKChain(deco) ==
+  [ref |-> Ref(RelRef(<<"list">>), FragPtr(<<SegN("defs", "entry")>>)),
+   defs |-> [list |-> [id |-> IdOf(RelRef(<<"list">>)),
+                       defs |-> [entry |-> [ref |-> Ref(RelRef(<<"generic">>), FragNone)] @@ deco,
+                                 t |-> [dynamicAnchor |-> "T", type |-> "string"]]],
+             generic |-> [id |-> IdOf(RelRef(<<"generic">>)), items |-> [dynamicRef |-> LocalRef(FragName("T"))],
+                          defs |-> [t |-> [dynamicAnchor |-> "T"]]]]]
+DKChainCases == {[base |-> DKChain(EmptyFcn), s |-> DKChain(d), raw |-> ("rawkeys" \in DOMAIN d), uri |-> DKChainURI] : d \in DKDecos \cup DKRaw}
 DKOk(c) == c.s # c.base
 
 \* ------------------------------------------------------------ RD: documents (C05, other direction)
@@ -178,7 +192,10 @@ RDCases == {
 Cases == CASE Family = "PO" -> POCases
            [] Family = "RD" -> RDCases
            [] Family = "RT" -> {[s |-> v] : v \in {x \in RTValues(0) : RTOk(x)}}
-           [] Family = "DK" -> {c \in DKCases : DKOk(c)}
+           \* (the undecorated bases are replayed as well: "with and without the decoration" has two sides)
+           [] Family = "DK" -> {c \in DKCases \cup DKChainCases : DKOk(c)}
+                               \cup {[base |-> b, s |-> b, raw |-> FALSE, uri |-> EmptyURI] : b \in DKBases}
+                               \cup {[base |-> DKChain(EmptyFcn), s |-> DKChain(EmptyFcn), raw |-> FALSE, uri |-> DKChainURI]}
 
 Init == cs \in Cases /\ phase = "new"
 Next == phase = "new" /\ phase' = "done" /\ cs' = cs
@@ -198,7 +215,7 @@ RoundTripKeepsMeaning ==
 \* a keyword only if it is exactly the keyword
 DecorationInert ==
   (Family = "DK" /\ phase = "done") =>
-     /\ VerdDr(cs.s, "2020") = VerdDr(cs.base, "2020")
+     /\ VerdU(cs.uri, cs.s) = VerdU(cs.uri, cs.base)
      /\ \A p \in AllPaths(cs.s) : "rawkeys" \in DOMAIN NodeAtS(cs.s, p) =>
            \A i \in DOMAIN NodeAtS(cs.s, p).rawkeys :
               LET k == NodeAtS(cs.s, p).rawkeys[i].k
@@ -210,7 +227,7 @@ Emit ==
       CASE Family = "PO" -> cs
         [] Family = "RD" -> cs
         [] Family = "RT" -> [s |-> cs.s, dr |-> DrFor(cs.s), exp |-> Verd(cs.s), keys |-> SetToSeq(KeysOf(cs.s))]
-        [] Family = "DK" -> [u |-> Single(cs.s), base |-> cs.base, exp |-> VerdDr(cs.base, "2020"), dr |-> "2020"])>>)
+        [] Family = "DK" -> [u |-> SingleU(cs.uri, cs.s), base |-> cs.base, exp |-> VerdU(cs.uri, cs.base), dr |-> "2020"])>>)
 
 ASSUME Family \in {"RT", "DK"} => PrintT(<<"INSTS", ToJson(RTInsts)>>)
 ====
